@@ -258,7 +258,11 @@ def rule_strip_set(prog):
 # ------------------------------------------------------------------ SAVE-RESTORE
 
 def _is_ts(c, e):
-    return hir.adt_path(c, e["t"]) == TS
+    t = hir.peel(c, e["t"])
+    for a in e.get("adj") or []:
+        t = hir.peel(c, a["to"])
+    # (the token stream type, wherever below spl_frontend::tokens it is declared)
+    return t["k"] == "adt" and (t["p"] == TS or (t["p"].startswith("spl_frontend::tokens::") and t["p"].endswith("::TokenStream")))
 
 
 def _ts_field(c, e):
@@ -364,6 +368,54 @@ def rule_token_errors(prog):
             out.add(b["d"], "Token{range: .., ..old} also relocates `errors`", "errors" in names, c.loc(s["sp"]),
                     "the token's range is replaced but its lexical errors (which carry absolute byte ranges) are "
                     "copied unchanged from the old token")
+        # taken apart and put together again: `let Token { token_type, range, errors } = old; Token { token_type, range: f(range), errors: g(errors) }`
+        old_parts = {}       # local id -> field of the old token it was bound to
+        for n_ in hir.nodes(b["body"]):
+            pt_ = n_.get("pat") if n_.get("k") in ("Let", "Arm", "LetExpr") else None
+            cands = [pt_] if isinstance(pt_, dict) else []
+            for pt in cands + [q for q in b["params"] if isinstance(q, dict)]:
+                pt = hir.pat_strip(pt)
+                if pt.get("k") == "Struct" and hir.adt_path(c, pt["t"]) == TOK:
+                    for f_ in pt["fields"]:
+                        q_ = hir.pat_strip(f_["pat"])
+                        if q_.get("k") == "Binding":
+                            old_parts[q_["id"]] = f_["name"]
+        if old_parts:
+            defs_t = {l_["pat"]["id"]: l_["init"] for l_ in hir.nodes(b["body"], "Let") if l_["pat"].get("k") == "Binding" and l_.get("init") is not None}
+
+            def origin(e_, depth=0):
+                """('copy', field) if e_ is the old token's part as it was; ('moved', field) if it is computed from it; None otherwise"""
+                e_ = hir.strip_ref(hir.strip(e_))
+                if depth > 5:
+                    return None
+                pl_ = hir.path_local(e_)
+                if pl_:
+                    if pl_["id"] in defs_t and pl_["id"] not in old_parts:
+                        return origin(defs_t[pl_["id"]], depth + 1)
+                    if pl_["id"] in old_parts:
+                        return ("copy", old_parts[pl_["id"]])
+                    return None
+                if e_.get("k") == "MethodCall" and e_["m"] in ("clone", "to_owned", "to_vec") and not e_["args"]:
+                    return origin(e_["recv"], depth + 1)
+                for x_ in hir.nodes(e_, "Path"):
+                    pl2 = hir.path_local(x_)
+                    if pl2 and (pl2["id"] in old_parts or (pl2["id"] in defs_t and origin(x_, depth + 1))):
+                        o_ = origin(x_, depth + 1)
+                        return ("moved", o_[1]) if o_ else None
+                return None
+
+            for s in hir.nodes(b["body"], "Struct"):
+                if s.get("adt") != TOK or s.get("base"):
+                    continue
+                fl = {f_["name"]: f_["e"] for f_ in s["fields"]}
+                if "range" not in fl or "errors" not in fl:
+                    continue
+                ro, eo = origin(fl["range"]), origin(fl["errors"])
+                if ro == ("moved", "range"):
+                    n += 1
+                    out.add(b["d"], "Token{range: .., ..old} also relocates `errors`", eo != ("copy", "errors"), c.loc(s["sp"]),
+                            "the token is rebuilt with a moved range but its lexical errors (which carry absolute byte ranges) are "
+                            "copied unchanged from the old token")
         # field-assignment form: `tok.range = ..` without `tok.errors = ..` in the same function
         assigns = {}
         for a in hir.nodes(b["body"], "Assign"):
@@ -1340,7 +1392,7 @@ def rule_empty_range_guard(prog):
     eb = [b for b in targets if b["d"] == "<AnalyzedSource as ErrorContainer>::errors"]
     if eb:
         tests = False
-        for x in hir.nodes_deep(prog, eb[0]["body"], 1, crate=c):
+        for x in hir.nodes_deep(prog, eb[0]["body"], 3, crate=c):
             pats = [a_["pat"] for a_ in x["arms"]] if x.get("k") == "Match" else [x["pat"]] if x.get("k") == "LetExpr" else []
             if any("spl_frontend::tokens::TokenType::Comment" in hir.pat_variants_all(pt) for pt in pats):
                 tests = True
